@@ -333,14 +333,18 @@ class MessageManager(interfaces.TokenInterface, interfaces.MessageManager):
 
         if retransmission_counter < message.transport_tuning.MAX_RETRANSMIT:
             self.log.info("Retransmission, Message ID: %d.", message.mid)
-            self._send_via_transport(message)
             retransmission_counter += 1
             timeout *= 2
 
+            # The exchange needs to be back in place before the message is
+            # handed to the transport: a transport may report an error
+            # synchronously from inside send (through dispatch_error), which
+            # needs to find and cancel the exchange (as in _send_initially).
             next_retransmission = self._schedule_retransmit(
                 message, timeout, retransmission_counter
             )
             self._active_exchanges[key] = (messageerror_monitor, next_retransmission)
+            self._send_via_transport(message)
         else:
             self.log.info("Exchange timed out trying to transmit %s", message)
             del self._backlogs[message.remote]
